@@ -524,7 +524,7 @@ func (e *Engine) Enumerate(fn *ssa.Function) []*Obligation {
 				if isInteger(x.X.Type()) && isInteger(x.Type()) && isUnsigned(x.X.Type()) && !isUnsigned(x.Type()) && sizeOf(x.Type()) == sizeOf(x.X.Type()) && sizeOf(x.Type()) >= 4 {
 					if _, isK := constInt(x.X); !isK {
 						v := c.lin(x.X)
-						bound := int64(1) << 56
+						bound := int64(1) << 44
 						if sizeOf(x.Type()) == 4 {
 							bound = 1<<31 - 1
 						}
